@@ -287,6 +287,16 @@ class MockTwoDResponseCalculator(TwoDResponseCalculator):
         """Calculate the shape of a Liouville pathway
         
         """
+        # line positions, widths and the frequency axes are combined in
+        # internal units, whatever units are current for the caller
+        with energy_units("int"):
+            return self._calculate_pathway(pathway, shape=shape)
+
+
+    def _calculate_pathway(self, pathway, shape="Gaussian"):
+        """Shape of a Liouville pathway; called in internal units
+        
+        """
         
         # we can calculate empty pathway
         if pathway is None:
